@@ -142,6 +142,9 @@ func propC02(c *Ctx, r *Report) {
 	c.runSpaceSameClass(r, "space.sameclass", "spirv/internal/codegen", nil)
 	r.floor("space.sameclass", 2)
 	r.floor("space.sharedClasses", 1)
+	r.Clauses = append(r.Clauses, "constant composites (E71): where a function composes constants of a scalar type it fixes locally, the composite's type is built from that same scalar type (by emitVectorType of it or a vector-type literal with the same kind and width)")
+	c.runConstCompositeComponent(r, "constcomposite.component", "spirv/internal/codegen")
+	r.floor("constcomposite.component", 2)
 	c.runCacheKeyMapped(r, "cachekey.mapped", "spirv/internal/codegen")
 	r.floor("cachekey.mapped", 1)
 	r.floor("width.suffix", 6)
